@@ -302,6 +302,99 @@ def task_map(sshape, tshape, sa, ta, conv, surf, rel):
     return report.summarize(name, res, failures, samples, extra=dict(distinct_obligations=len(distinct)))
 
 
+# ---------------------------------------------------------------------------
+# move: map, move the source geometry in place, map again (current centres)
+
+def _kdtree_stub_module(ld):
+    """Contract model of scipy.spatial.cKDTree for the scipy branch of column_mapping: the tree COPIES the points it is
+    built from; query(x) returns the index of a point at minimal Euclidean distance from x among them (first on ties)."""
+    import types
+    import numpy as _np
+    m = types.ModuleType(ld.pkg + '._absent_scipy_spatial')
+    class cKDTree(object):
+        def __init__(self, data):
+            self.data = [[v for v in p] for p in data]      # copied: later edits of the arrays do not reach the tree
+            self.n = len(self.data)
+            self.m = len(self.data[0]) if self.data else 0
+        def query(self, x):
+            xs = [v for v in x]
+            d2 = []
+            for p in self.data:
+                acc = 0
+                for a, b in zip(p, xs): acc = acc + (a - b) * (a - b)
+                d2.append(acc)
+            best = 0
+            for i in range(1, len(d2)):
+                if d2[i] < d2[best]: best = i
+            c = sym.ctx()
+            if c is not None: c.stubs_hit.add('scipy.spatial.cKDTree (contract: copies points, query = argmin of squared distance)')
+            return sym.ssqrt(d2[best]) if not sym.is_sym(d2[best]) else snorm.SNorm(z3.simplify(E(d2[best]), som=True)), best
+    m.cKDTree = cKDTree
+    return m
+
+
+def _set_kdtree(ld, on):
+    import sys as _sys
+    key = ld.pkg + '._absent_scipy_spatial'
+    if on: _sys.modules[key] = _kdtree_stub_module(ld)
+    else: _sys.modules.pop(key, None)
+
+
+def moved(gi, shift):
+    """oracle description of gi after translate(shift) (shift: three z3 terms)"""
+    g = GeoInfo()
+    g.__dict__.update(gi.__dict__)
+    g.cx = [v + shift[0] for v in gi.cx]; g.cy = [v + shift[1] for v in gi.cy]
+    g.lbot = [v + shift[2] for v in gi.lbot]; g.lcen = [v + shift[2] for v in gi.lcen]; g.ltop = [v + shift[2] for v in gi.ltop]
+    g.surf = [v + shift[2] for v in gi.surf]
+    return g
+
+
+def task_move(sshape, tshape, sa, ta, conv, surf, rel, kdtree):
+    """block_mapping, then sourcegeo.translate(symbolic shift), then block_mapping again: the second mapping must be
+    nearest-based for the centres the geometry has NOW.  kdtree=True runs the scipy branch of column_mapping against
+    the contract stub above, kdtree=False the module's own fallback branch."""
+    ld = _load()
+    mg = ld.mulgrids
+    failures, samples, distinct = [], [], set()
+    name = 'move/%dx%dx%d->%dx%dx%d/atm%d->%d/conv%d/%s/%s/%s' % (sshape + tshape + (sa, ta, conv, surf, rel, 'kdtree' if kdtree else 'fallback'))
+    tag = 'kdtree' if kdtree else 'fallback'
+
+    def h(c):
+        _set_kdtree(ld, kdtree)
+        try:
+            sgeo, s = make_geo(c, mg, 's', sshape, sa, conv, surf)
+            tgeo, t = make_geo(c, mg, 't', tshape, ta, conv, surf, like=(s, rel) if rel != 'free' else None)
+            shift = [c.real('move%d' % k) for k in range(3)]
+            stage = ['before-move']
+            def fail(sub, what):
+                m = c.failures[-1]['model']
+                failures.append(dict(key='block_mapping/%s-%s/%s' % (stage[0], tag, sub), what='%s: %s' % (name, what),
+                                     replay=model_numbers(m, [s, t], dict(fn='move', kdtree=kdtree,
+                                                                          shift=[sym.model_value(m, v.e) for v in shift]))))
+            try:
+                mapping, colmap = sgeo.block_mapping(tgeo, True)
+                check_mapping(c, s, t, sgeo, tgeo, mapping, colmap, distinct, fail)
+                sgeo.translate(list(shift))
+                stage[0] = 'after-move'
+                s2 = moved(s, [v.e for v in shift])
+                mapping2, colmap2 = sgeo.block_mapping(tgeo, True)
+            except Exception as ex:
+                if c.refute_path('map / translate / map raises no exception') == 'sat':
+                    fail(type(ex).__name__, 'raised %s: %s' % (type(ex).__name__, ex))
+                return 'raised'
+            if block_list_check(c, sgeo, s2, distinct) == 'sat': fail('source-block-list', 'block list wrong after the move')
+            check_mapping(c, s2, t, sgeo, tgeo, mapping2, colmap2, distinct, fail)
+            if len(samples) < 1:
+                samples.append(dict(task=name, before=dict(sorted(mapping.items())[:4]), after=dict(sorted(mapping2.items())[:4])))
+            return 'mapped'
+        finally:
+            _set_kdtree(ld, False)
+
+    res = sym.explore(h, fastctx.FastCtx(timeout_ms=60000), max_paths=6000)
+    return report.summarize(name, res, failures, samples, extra=dict(distinct_obligations=len(distinct)))
+
+
 def task_self(shape, atm, conv, surf):
     ld = _load()
     mg = ld.mulgrids
@@ -434,7 +527,7 @@ def task_data(shape, atm, conv, layout, preserve, rename):
         under = [nm for nm in sgeo.block_name_list if nm in s.under]
         topcat, botcat = TOPCAT[conv], BOTCAT[conv]
         gens = []
-        for gi_, nm, blk, typ, ntab, enth in generator_plan(conv, layout, s.colname, s.layname):
+        for gi_, nm, blk, typ, ntab, enth, follows in generator_plan(conv, layout, s.colname, s.layname):
             kw = dict(name=nm, block=blk, type=typ)
             if ntab:
                 kw['ltab'] = ntab
@@ -447,8 +540,8 @@ def task_data(shape, atm, conv, layout, preserve, rename):
                 kw['gx'] = c.real('g%d_gx' % gi_)
                 kw['ex'] = c.real('g%d_ex' % gi_)
             g = td.t2generator(**kw)
-            dat.add_generator(g); gens.append((g, kw))
-        snapshot = [(g.name, g.block, g.type, g.ltab, g.itab, g.gx, g.ex, list(g.time), list(g.rate), list(g.enthalpy)) for g, _ in gens]
+            dat.add_generator(g); gens.append((g, kw, follows))
+        snapshot = [(g.name, g.block, g.type, g.ltab, g.itab, g.gx, g.ex, list(g.time), list(g.rate), list(g.enthalpy)) for g, _, _ in gens]
         d2 = td.t2data()
         def fail(sub, what):
             m = c.failures[-1]['model']
@@ -469,8 +562,9 @@ def task_data(shape, atm, conv, layout, preserve, rename):
         def eqnum(a, b):
             if a is None or b is None: return z3.BoolVal(a is None and b is None)
             return E(a) == E(b)
-        for (g, kw), snap in zip(gens, snapshot):
-            cand = [o for o in out if o.block == snap[1] and o.name == snap[0]]
+        for (g, kw, follows), snap in zip(gens, snapshot):
+            # a generator whose name does not follow its block's column may be renamed: it is identified by its block
+            cand = [o for o in out if o.block == snap[1] and (o.name == snap[0] or not follows)]
             if len(cand) != 1:
                 if c.refute_path('generator kept (block, name)') == 'sat': fail('generator-lost', '%r:%r not in %r' % (snap[1], snap[0], [(o.block, o.name) for o in out]))
                 continue
@@ -493,7 +587,7 @@ def task_data(shape, atm, conv, layout, preserve, rename):
             if r0 or r1:
                 if c.prove(z3.Sum(*(r0 + [z3.RealVal(0)])) == z3.Sum(*(r1 + [z3.RealVal(0)])), 'total table generation preserved at time %d' % j) == 'sat':
                     fail('total-generation', 'sum of table rates differs')
-        after = [(g.name, g.block, g.type, g.ltab, g.itab, g.gx, g.ex, list(g.time), list(g.rate), list(g.enthalpy)) for g, _ in gens]
+        after = [(g.name, g.block, g.type, g.ltab, g.itab, g.gx, g.ex, list(g.time), list(g.rate), list(g.enthalpy)) for g, _, _ in gens]
         same = len(dat.generatorlist) == len(gens) and all(
             a[:5] == b[:5] and a[5] is b[5] and a[6] is b[6] and all(x is y for x, y in zip(a[7] + a[8] + a[9], b[7] + b[8] + b[9]))
             for a, b in zip(snapshot, after))
@@ -525,6 +619,11 @@ def plan(tier):
             T.append((task_incon, dict(sshape=(2, 1, 2), tshape=(2, 1, 2), sa=1, ta=1, conv=0, surf='default', rel='shift', nvar=nvar)))
         T.append((task_data, dict(shape=(2, 1, 2), atm=0, conv=0, layout='A', preserve=False, rename=False)))
         T.append((task_data, dict(shape=(2, 1, 3), atm=1, conv=0, layout='B', preserve=True, rename=False)))
+        for preserve in (False, True):
+            T.append((task_data, dict(shape=(2, 1, 2), atm=0, conv=0, layout='D', preserve=preserve, rename=False)))
+        for kd in (False, True):
+            T.append((task_move, dict(sshape=(2, 1, 2), tshape=(2, 1, 2), sa=1, ta=1, conv=0, surf='default', rel='same', kdtree=kd)))
+        T.append((task_move, dict(sshape=(2, 1, 2), tshape=(1, 2, 2), sa=0, ta=1, conv=0, surf='default', rel='free', kdtree=True)))
         return T
     # thorough
     for sa, ta in combos:
@@ -555,6 +654,18 @@ def plan(tier):
         for conv in (1, 2, 3):
             T.append((task_self, dict(shape=(3, 2, 2), atm=atm, conv=conv, surf='default')))
     T.append((task_self, dict(shape=(3, 1, 3), atm=1, conv=0, surf='sym')))
+    for kd in (False, True):
+        for sa, ta in ((0, 0), (1, 1), (1, 0), (2, 1)):
+            T.append((task_move, dict(sshape=(2, 1, 2), tshape=(2, 1, 2), sa=sa, ta=ta, conv=0, surf='default', rel='same', kdtree=kd)))
+        T.append((task_move, dict(sshape=(2, 2, 2), tshape=(2, 2, 2), sa=1, ta=1, conv=0, surf='default', rel='same', kdtree=kd)))
+        T.append((task_move, dict(sshape=(2, 1, 2), tshape=(1, 2, 2), sa=0, ta=1, conv=0, surf='default', rel='free', kdtree=kd)))
+        T.append((task_move, dict(sshape=(2, 1, 3), tshape=(2, 1, 3), sa=1, ta=1, conv=0, surf='sym', rel='same', kdtree=kd)))
+        T.append((task_move, dict(sshape=(3, 1, 2), tshape=(2, 1, 2), sa=1, ta=0, conv=2, surf='default', rel='free', kdtree=kd)))
+    for layout in ('D', 'E'):
+        for preserve in (False, True):
+            T.append((task_data, dict(shape=(2, 1, 2), atm=0, conv=0, layout=layout, preserve=preserve, rename=False)))
+            T.append((task_data, dict(shape=(2, 2, 3), atm=1, conv=0, layout=layout, preserve=preserve, rename=True)))
+        T.append((task_data, dict(shape=(2, 1, 3), atm=2, conv=2, layout=layout, preserve=False, rename=False)))
     for layout in ('A', 'B', 'C'):
         for preserve in (False, True):
             for rename in (False, True):
@@ -571,7 +682,7 @@ def run(tier, seed, rep):
     _load()
     tasks = plan(tier)
     # the few long tasks first, so that they do not end up at the tail of the pool
-    heavy = lambda t: 0 if (t[0] is task_data and t[1]['shape'][0] * t[1]['shape'][1] >= 3) or \
+    heavy = lambda t: 0 if t[0] is task_move or (t[0] is task_data and t[1]['shape'][0] * t[1]['shape'][1] >= 3) or \
         (t[1].get('sshape', (0, 0, 0))[0] * t[1].get('sshape', (0, 0, 0))[1] >= 6) or \
         (t[0] is task_self and t[1]['surf'] == 'sym') else 1
     tasks.sort(key=heavy)
@@ -597,7 +708,13 @@ def run(tier, seed, rep):
                    'primary variables: 1..4 per block, every value and porosity symbolic',
                    't2data.transfer_from: identical geometries up to 2x2x3 and 3x1x3, spacings in [1e-3, 1e5], generator layouts A/B/C '
                    '(top/bottom/interior, MASS/HEAT/COM1, constant and tabulated rates, enthalpy tables), preserve_totals and rename on/off']
-    rep.outside += ['scipy k-d tree branch of column_mapping (the fallback branch runs)', 'shipped / irregular geometries as inputs',
+    rep.bounds += ['move family: block_mapping, sourcegeo.translate(symbolic shift), block_mapping again, obligations on the CURRENT centres; '
+                   'run on the fallback branch and on the scipy branch of column_mapping against a contract model of cKDTree']
+    rep.assumptions += ['k-d tree contract (move family, kdtree=True only): cKDTree(points) copies the points; query(x) returns the index of a point at '
+                        'minimal squared Euclidean distance among them (first on ties); counterexamples from this branch are replayed with the real scipy',
+                        'layouts D/E: a top/bottom generator belongs to the column of its BLOCK; when its name carries another column (or no column) '
+                        'the code may rename it, so it is matched by block, type and rates only']
+    rep.outside += ['the real scipy k-d tree implementation (its contract is modelled in the move family; all other families run the fallback branch)', 'shipped / irregular geometries as inputs',
                     'pairs with more than 6 freely placed columns per geometry (path explosion: 3x2 on 3x2 free exceeds the budget)',
                     't2data.transfer_from between different geometries, the incon-file branch of t2data.transfer_from, rock-type transfer',
                     'IEEE rounding (exact real arithmetic)', 'ties in nearest column/layer: any nearest one is accepted']
